@@ -40,6 +40,8 @@ def cases(shard, tier):
             for u in UFUNCS:
                 yield [lens, dt, k, u, "reduce"]
                 yield [lens, dt, k, u, "reduce_keepdims"]
+                if k == 0:
+                    yield [lens, dt, k, u, "reduce_axis1"]
         if np.dtype(dt).kind in "if":
             # rows whose non-zero entries cancel ([1, -1], [2, -2, 0]): "some entry is non-zero" is not "the sum is non-zero"
             for op in ("any", "all", "sum", "max", "argmax"):
@@ -107,6 +109,8 @@ def check(case, acc):
         ref = lambda r: u.reduce(r)
         if form == "reduce":
             call = lambda: u.reduce(ra, axis=-1)
+        elif form == "reduce_axis1":
+            call = lambda: u.reduce(ra, axis=1)
         else:
             acc.feature("keepdims")
             call = lambda: u.reduce(ra, axis=-1, keepdims=True)
